@@ -177,9 +177,18 @@ CLAIMS = {
         "One unrepaired known finding (schema_str_ leak on repeated ParseSchema) is listed in known_findings.json, hence level 'other'. NOT decided: exactly-once over arbitrary histories."),
   note='Trusted: clang 14 front end; clang -verify. Freeing-allocator instantiations are the ones analysed (the pool never frees).',
   design='5/C13'),
+ 'C19': dict(
+  category='proof',
+  technique='sibling agreement of Start*/End* context-stack effects by path enumeration (E9); must-dominance / path rules for restore-before-pop, build-mode parent and Key lookup (E2)',
+  text=("Decides ONLY the mode and context-stack discipline of SchemaHandler, for both node types: (a) the sets of (parent_st_, found_count_st_) effects of the successful paths of StartObject/EndObject and of StartArray/EndArray agree "
+        "(an End path popping a combination no Start path pushes lets the saved contexts drift); (b) every pop of a context stack is preceded by a read of its back(), and a pop of found_count_st_ by restoring found_node_count_ from it; "
+        "(c) every successful Start* path that pushed a stack node (a new value is being built) leaves parent_node_ null, so Key() cannot look the new value's keys up in an existing object; a path that pushed nothing may leave it on a node tested to be a non-empty object; "
+        "(d) Key() looks members up only in a non-null existing object, accepts a key only when the member was found with cur_node_ set to its value, and leaves cur_node_ null otherwise. "
+        "Each is a necessary condition of 'updates exactly the declared members'. NOT decided: the recursive merge semantics over (document, text) pairs (model-level)."),
+  note='Trusted: clang 14 front end and CFG; std::vector push/pop/back semantics. Two genuine defects found by these rules were repaired (known_findings.json fixed entries a74f3b2, ffd7b65).',
+  design='5/C19, 9.4'),
 }
 NA_REASON = {
- 'C19': 'Agreement with a recursive merge model over (document, text) pairs; no structural clause that is a necessary condition without mirroring the handler code (DESIGN.md section 7).',
 }
 checks = []
 na = []
